@@ -189,7 +189,13 @@ def run(prog, ctx):
     # ---- comments -----------------------------------------------------------------------------------------------------
     for fld, where_ in (("comment_before_key", "before"), ("comment_after_value", "after")):
         uses = [x for x in f.walk() if x.k == "MemberExpr" and x.j.get("member") == fld and x.within(lp)]
-        cp = [c for c in prints if "line" in args_of(c) and "%s->comment" % obj in args_of(c)]
+        # the per-line variable: a local that receives the result of strsep()/strtok_r()
+        line_vars = set()
+        for lhs2, rhs2, st2 in f.assignments():
+            r2 = rhs2.strip()
+            if r2.k == "CallExpr" and r2.j.get("callee") in ("strsep", "strtok_r"):
+                line_vars.add(lhs2["name"] if isinstance(lhs2, dict) else render(lhs2))
+        cp = [c for c in prints if set(args_of(c)) & line_vars and "%s->comment" % obj in args_of(c)]
         mine = []
         for c in cp:
             ok, cut = cfg.all_paths_cut(cfg.block_of(c), lambda lit, b, ii: lit is not None and lit.atom == "%s.%s" % (ent, fld) and lit.pol)
